@@ -759,3 +759,103 @@ Proof.
   destruct (dial_full_single_winner sq atts sched i p l r H) as [A B].
   split; [exact A|]. split; [apply dial_at_most_one|exact B].
 Qed.
+
+(* ---- the broker's failure reaches Dial's caller (single broker) ---- *)
+
+Lemma dial_done_stable seqm results sched r l rep :
+  fold_left (dial_step seqm results) sched (DDone r l rep) = DDone r l rep.
+Proof. induction sched as [|e sched IH]; simpl; [reflexivity|exact IH]. Qed.
+
+Lemma dial_single_broker_failure seqm o e sched :
+  o_res o = Failed e ->
+  run_dial seqm [Some o] (DResult 0 :: sched) = DDone (DAllFailed [e]) 1 [0].
+Proof.
+  intro H. unfold run_dial, dial_init. cbn [fold_left dial_step d_next d_reported d_errs length nth_error].
+  cbn [Nat.ltb Nat.leb mem_nat existsb negb andb]. rewrite H.
+  cbn. apply dial_done_stable.
+Qed.
+
+Lemma dial_reports_broker_failure : forall seqm id s1 m s2 dsched,
+  forallb (quiet_ev id) s1 = true ->
+  dial_full seqm [(id, s1 ++ SPickReply (RFail m) :: s2)] (DResult 0 :: dsched)
+  = DDone (DAllFailed [AeBroker m]) 1 [0].
+Proof.
+  intros seqm id s1 m s2 dsched Q.
+  destruct (attempt_broker_failure_before_match id s1 m s2 Q) as (o & E & R).
+  unfold dial_full, attempt_outcomes. cbn [map fst snd]. rewrite E. cbn [att_outcome].
+  apply dial_single_broker_failure. exact R.
+Qed.
+
+(* ---- the two descriptions of the accept loop agree ----
+   Feeding connections one by one to the small-step attempt (no other events)
+   leaves the accept goroutine in the state accept_reversed computes. *)
+
+Definition arrive_all (l : list (peer * greeting)) : list sev :=
+  map (fun pg => SArrive (fst pg) (snd pg)) l.
+Definition as_conns (l : list (peer * greeting)) : list arrival :=
+  map (fun pg => AConn (fst pg) (snd pg)) l.
+
+Definition no_stall (l : list (peer * greeting)) : Prop :=
+  forall p g, In (p, g) l -> g <> GStall.
+
+Lemma step_arrive_waiting id s p g :
+  g <> GStall -> as_acc s = AsWaiting -> as_ctx_done s = false ->
+  att_step id (Running s) (SArrive p g) =
+  if hello_matches id g
+  then Running (mkAtt (AsDone (AccConn p)) (as_reply_open s) false (as_closed s) (as_backlog s))
+  else Running (mkAtt AsWaiting (as_reply_open s) false (as_closed s ++ [p]) (as_backlog s)).
+Proof.
+  intros Hg WA CD. cbn [att_step]. rewrite WA, CD. destruct g; try reflexivity. congruence.
+Qed.
+
+Lemma accept_cons_conn id p g r :
+  g <> GStall ->
+  accept_reversed id false (AConn p g :: r) =
+  if hello_matches id g then (AccConn p, [])
+  else let '(res, cl) := accept_reversed id false r in (res, p :: cl).
+Proof. intro Hg. cbn [accept_reversed]. destruct g; try reflexivity. congruence. Qed.
+
+(* after the match, later connections only grow the backlog *)
+Lemma arrivals_after_match id p : forall l s,
+  as_acc s = AsDone (AccConn p) ->
+  exists s', run_attempt_from id (Running s) (arrive_all l) = Running s' /\
+    as_acc s' = AsDone (AccConn p) /\ as_closed s' = as_closed s /\
+    exists bl, as_backlog s' = as_backlog s ++ bl.
+Proof.
+  induction l as [|[q g] l IH]; intros s A.
+  - exists s. simpl. repeat split; auto. exists []. rewrite app_nil_r. reflexivity.
+  - cbn [arrive_all map run_attempt_from fold_left att_step fst snd]. rewrite A.
+    destruct (IH (mkAtt (AsDone (AccConn p)) (as_reply_open s) (as_ctx_done s) (as_closed s) (as_backlog s ++ [q])) eq_refl)
+      as (s' & E & B1 & B2 & bl & B3).
+    exists s'. split; [exact E|]. simpl in *. repeat split; auto.
+    exists (q :: bl). rewrite B3, <- app_assoc. reflexivity.
+Qed.
+
+Lemma acceptor_agrees id : forall l s,
+  no_stall l -> as_acc s = AsWaiting -> as_ctx_done s = false ->
+  exists s', run_attempt_from id (Running s) (arrive_all l) = Running s' /\
+    as_closed s' = as_closed s ++ snd (accept_reversed id false (as_conns l)) /\
+    as_acc s' = match fst (accept_reversed id false (as_conns l)) with
+                | AccConn p => AsDone (AccConn p)
+                | _ => AsWaiting
+                end.
+Proof.
+  induction l as [|[p g] l IH]; intros s NS WA CD.
+  - exists s. simpl. rewrite app_nil_r. auto.
+  - assert (NS' : no_stall l) by (intros q g' H; apply (NS q g'); right; exact H).
+    assert (Hg : g <> GStall) by (apply (NS p g); left; reflexivity).
+    change (as_conns ((p, g) :: l)) with (AConn p g :: as_conns l).
+    change (run_attempt_from id (Running s) (arrive_all ((p, g) :: l)))
+      with (run_attempt_from id (att_step id (Running s) (SArrive p g)) (arrive_all l)).
+    rewrite (step_arrive_waiting id s p g Hg WA CD), (accept_cons_conn id p g (as_conns l) Hg).
+    destruct (hello_matches id g).
+    + destruct (arrivals_after_match id p l
+                  (mkAtt (AsDone (AccConn p)) (as_reply_open s) false (as_closed s) (as_backlog s)) eq_refl)
+        as (s' & E & B1 & B2 & _).
+      exists s'. split; [exact E|]. simpl in *. rewrite app_nil_r. auto.
+    + destruct (IH (mkAtt AsWaiting (as_reply_open s) false (as_closed s ++ [p]) (as_backlog s)) NS' eq_refl eq_refl)
+        as (s' & E & B1 & B2).
+      exists s'. split; [exact E|]. simpl in B1.
+      destruct (accept_reversed id false (as_conns l)) as [res cl]. simpl in *.
+      rewrite B1, <- app_assoc. auto.
+Qed.
